@@ -21,6 +21,8 @@ def play_steps(sc, prof, hist, thr=None, interleave=None, mid_comp=None):
     """Script steps: login (optionally set-compression), then the play history.  mid_comp = (index, threshold): the
     play-state set-compression packet (protocols up to 47) is sent in front of history item `index`."""
     steps = [('expect', 2)]
+    if thr == 'edge':       # the threshold is exactly the size of one of the packets to come: a vanilla server sends that
+        thr = len(hist[len(hist) // 2][2]) if hist else 1       # one compressed (it compresses from the threshold upwards)
     if thr is not None:
         steps += [('send', prof.login_compress(thr)), ('compress', thr)]
     steps += [('send', prof.login_success(bytes(range(16)), 'verif')),
@@ -345,7 +347,7 @@ def run(chk):
                 hist.append(('disc', 0))
             else:
                 hist.append((p[0], 5))
-        run_, tr, prof = execute(version, hist, chk.seed * 100003 + i, thr=rng.choice([None, None, 0, 64]),
+        run_, tr, prof = execute(version, hist, chk.seed * 100003 + i, thr=rng.choice([None, None, 0, 64, 'edge']),
                                  interleave=(lambda j: False) if i % 2 else (lambda j: j % 2 == 0))
         chk.traces += 1
         chk.case(('script', json.dumps(row['script']), row['tp']))
@@ -390,7 +392,7 @@ def run(chk):
             hr = random.Random(seed)
             length = n_hist if (vi % 5 or quick) else 420
             hist = random_history(hr, length, prof_ge339)
-            thr = [None, 0, 1, 64, 256][(vi + rep) % 5]
+            thr = [None, 0, 1, 64, 256, 'edge'][(vi + rep) % 6]
             # up to protocol 47 compression may also be switched on (or its threshold changed) in the play state
             mid = (hr.randrange(max(1, len(hist) - 1)), hr.choice([0, 1, 64])) if known.index(version) <= known.index(47) else None
             if mid is not None and rep == 0:
